@@ -418,6 +418,13 @@ type AggPlan struct {
 	RTMaxBatch  int // batches up to this size are also run with every message passed through marshal/unmarshal
 	Seeds       int // how many entries of the seed alphabet
 	DomainLimit int
+	// SweepInsts: for each of these (small) instances EVERY number of aggregators 2..255 prepares the
+	// batches [last] and [first last] of the measurement domain (the property quantifies over 2..255).
+	SweepInsts []prio.Inst
+	// HistoryInsts: collection histories (repeated Unshard, aggregation continued after an intermediate
+	// Unshard, with and without marshalling the aggregate shares in between) for these instances.
+	HistoryInsts  []prio.Inst
+	HistoryShares []int
 }
 
 // UnitAgg: exact aggregates of all small batches.
@@ -436,9 +443,22 @@ func (s *Sys[M, A, V, E]) UnitAgg(r *verifmc.Run, t interface{ Fatalf(string, ..
 		shares  int
 		seedIdx int
 		light   bool
+		kind    int // 0 batches, 1 aggregator sweep, 2 collection histories
 	}
 	var jobs []job
 	doms := map[string]interface{}{}
+	for _, inst := range plan.SweepInsts {
+		for sh := 2; sh <= 255; sh++ {
+			jobs = append(jobs, job{inst: inst, shares: sh, seedIdx: 3, kind: 1})
+		}
+	}
+	for _, inst := range plan.HistoryInsts {
+		for _, sh := range plan.HistoryShares {
+			for _, si := range []int{1, 3} {
+				jobs = append(jobs, job{inst: inst, shares: sh, seedIdx: si, kind: 2})
+			}
+		}
+	}
 	for _, inst := range plan.Insts {
 		dom, complete := inst.Domain(plan.DomainLimit)
 		doms[inst.String()] = map[string]interface{}{"domain_size": len(dom), "complete": complete}
@@ -447,13 +467,13 @@ func (s *Sys[M, A, V, E]) UnitAgg(r *verifmc.Run, t interface{ Fatalf(string, ..
 		}
 		for si := 0; si < nSeeds; si++ {
 			for _, sh := range plan.FullShares {
-				jobs = append(jobs, job{inst, sh, si, false})
+				jobs = append(jobs, job{inst: inst, shares: sh, seedIdx: si})
 			}
 		}
 		for _, sh := range plan.LightShares {
-			jobs = append(jobs, job{inst, sh, 3, true})
+			jobs = append(jobs, job{inst: inst, shares: sh, seedIdx: 3, light: true})
 			if sh <= 16 || r.Thorough() {
-				jobs = append(jobs, job{inst, sh, 1, true})
+				jobs = append(jobs, job{inst: inst, shares: sh, seedIdx: 1, light: true})
 			}
 		}
 	}
@@ -468,6 +488,16 @@ func (s *Sys[M, A, V, E]) UnitAgg(r *verifmc.Run, t interface{ Fatalf(string, ..
 	r.Set("max_batch_with_marshal_round_trip", plan.RTMaxBatch)
 	r.Set("seed_alphabet", nSeeds)
 	r.Set("domain_limit", plan.DomainLimit)
+	var sweep, hist []string
+	for _, i := range plan.SweepInsts {
+		sweep = append(sweep, i.String())
+	}
+	for _, i := range plan.HistoryInsts {
+		hist = append(hist, i.String())
+	}
+	r.Set("aggregators_2_to_255_complete_for", sweep)
+	r.Set("collection_histories_for", hist)
+	r.Set("collection_histories_aggregators", plan.HistoryShares)
 	verifmc.ParallelFor(len(jobs), func(ji int) {
 		j := jobs[ji]
 		if r.Expired() {
@@ -486,6 +516,27 @@ func (s *Sys[M, A, V, E]) UnitAgg(r *verifmc.Run, t interface{ Fatalf(string, ..
 			}()
 		}
 		dom, _ := j.inst.Domain(plan.DomainLimit)
+		if j.kind == 1 {
+			first, last := dom[0], dom[len(dom)-1]
+			s.CheckBatch(r, v, j.inst, j.seedIdx, [][]uint64{last}, false)
+			s.CheckBatch(r, v, j.inst, j.seedIdx, [][]uint64{first, last}, false)
+			if j.shares <= 16 {
+				s.CheckBatch(r, v, j.inst, j.seedIdx, [][]uint64{last}, true)
+			}
+			r.Count("aggregator_counts_swept", 1)
+			return
+		}
+		if j.kind == 2 {
+			ext := [][]uint64{dom[0], dom[len(dom)-1]}
+			Batches(ext, 2, func(a [][]uint64) {
+				Batches(ext, 2, func(b [][]uint64) {
+					for _, marshal := range []bool{false, true} {
+						s.CheckHistory(r, v, j.inst, j.seedIdx, a, b, marshal)
+					}
+				})
+			})
+			return
+		}
 		maxLen := plan.MaxBatch
 		if j.light {
 			maxLen = 2
@@ -509,6 +560,149 @@ func (s *Sys[M, A, V, E]) UnitAgg(r *verifmc.Run, t interface{ Fatalf(string, ..
 		})
 	})
 	r.RequireCounter("nonempty_batches_exact", 1)
+	if len(plan.SweepInsts) > 0 {
+		r.RequireCounter("aggregator_counts_swept", int64(254*len(plan.SweepInsts)))
+	}
+	if len(plan.HistoryInsts) > 0 {
+		r.RequireCounter("collection_histories_exact", 1)
+	}
+}
+
+// aggregateInto shards, prepares and aggregates the batch into aggs (report positions start at pos0).
+func (s *Sys[M, A, V, E]) aggregateInto(v VDAF[M, A, V, E], aggs []prio3.AggShare[V, E], seed int64, seedIdx, pos0 int, batch [][]uint64) string {
+	params := v.Params()
+	for k, m := range batch {
+		vk, nonce, rnd := Material(params.RandSize(), seed, seedIdx, pos0+k)
+		pub, in, err := v.Shard(s.ToM(m), &nonce, rnd)
+		if err != nil {
+			return "shard-error:" + err.Error()
+		}
+		res := Prepare(v, &vk, &nonce, pub, in, nil, false)
+		if !res.Accepted() {
+			return "valid-report-rejected:" + res.Where
+		}
+		for i := range aggs {
+			v.AggregateUpdate(&aggs[i], res.Out[i])
+		}
+	}
+	return ""
+}
+
+func aggBytes[V arith.Vec[V, E], E arith.Elt](aggs []prio3.AggShare[V, E]) []byte {
+	var all []byte
+	for i := range aggs {
+		b, err := aggs[i].MarshalBinary()
+		if err != nil {
+			all = append(all, []byte("marshal error: "+err.Error())...)
+		}
+		all = append(all, 0xAA)
+		all = append(all, b...)
+	}
+	return all
+}
+
+// CheckHistory: a collection history on one set of aggregate shares.
+//
+//	aggregate batch A; Unshard (= aggregate of A); Unshard again (same result); the aggregate shares
+//	must be byte-for-byte what they were before the two calls; optionally pass every aggregate share
+//	through MarshalBinary/UnmarshalBinary; continue aggregating batch B into the SAME shares;
+//	Unshard (= aggregate of A followed by B); Unshard again (same).
+//
+// Every Unshard only reads its arguments in the specification, so each of them must return the plain
+// aggregate of the reports aggregated so far.
+func (s *Sys[M, A, V, E]) CheckHistory(r *verifmc.Run, v VDAF[M, A, V, E], inst prio.Inst, seedIdx int, a, b [][]uint64, marshal bool) {
+	params := v.Params()
+	shares := int(params.Shares())
+	caseID := fmt.Sprintf("hist|%s|seed%d|marshal=%v|%v+%v", tag(inst, shares), seedIdx, marshal, a, b)
+	if !r.Want(caseID) {
+		return
+	}
+	r.Eval(1)
+	r.Distinct(caseID)
+	r.Trace(1)
+	key := func(cls string) string {
+		return fmt.Sprintf("C19|%s.aggregate|history:%s|%s", inst.Kind, cls, tag(inst, shares))
+	}
+	payload := map[string]interface{}{"instance": inst.String(), "aggregators": shares, "seed_index": seedIdx,
+		"batch_A": fmt.Sprint(a), "batch_B": fmt.Sprint(b), "aggregate_shares_marshalled_between": marshal}
+	ab := append(append([][]uint64{}, a...), b...)
+	if !inst.BelowModulus(inst.Aggregate(ab)) || !prio.FitsUint64(inst.Aggregate(ab)) {
+		r.Outcome("history:aggregate not representable (no demand)")
+		return
+	}
+	var fail, cls string
+	equal := func(got []uint64, want []*big.Int) bool {
+		if len(got) != len(want) {
+			return false
+		}
+		for k := range got {
+			if !want[k].IsUint64() || want[k].Uint64() != got[k] {
+				return false
+			}
+		}
+		return true
+	}
+	panicked, what := verifmc.Try(func() {
+		aggs := make([]prio3.AggShare[V, E], shares)
+		for i := range aggs {
+			aggs[i] = v.AggregateInit()
+		}
+		unshard := func(step string, n int, want []*big.Int) bool {
+			before := aggBytes(aggs)
+			got, err := v.Unshard(aggs, uint(n))
+			if err != nil || got == nil {
+				cls, fail = "unshard-error", fmt.Sprintf("%s: Unshard: %v", step, err)
+				return false
+			}
+			if !equal(s.FromA(got), want) {
+				cls, fail = "wrong-aggregate@"+step, fmt.Sprintf("%s: Unshard returned %v, want %v", step, s.FromA(got), want)
+				return false
+			}
+			if !bytes.Equal(before, aggBytes(aggs)) {
+				cls, fail = "unshard-modified-aggregate-shares", fmt.Sprintf("%s: Unshard changed the caller's aggregate shares", step)
+				return false
+			}
+			return true
+		}
+		if f := s.aggregateInto(v, aggs, r.Seed(), seedIdx, 0, a); f != "" {
+			cls, fail = class(f), f
+			return
+		}
+		wantA := inst.Aggregate(a)
+		if !unshard("first-collection", len(a), wantA) || !unshard("repeated-collection", len(a), wantA) {
+			return
+		}
+		if marshal {
+			var rtFail string
+			for i := range aggs {
+				x, _ := pass(&aggs[i], func() *prio3.AggShare[V, E] { return new(prio3.AggShare[V, E]).New(&params) }, nil, true, "agg-share", &rtFail)
+				aggs[i] = *x
+			}
+			if rtFail != "" {
+				cls, fail = "roundtrip", rtFail
+				return
+			}
+		}
+		if f := s.aggregateInto(v, aggs, r.Seed(), seedIdx, len(a), b); f != "" {
+			cls, fail = class(f), f
+			return
+		}
+		wantAB := inst.Aggregate(ab)
+		if !unshard("later-collection", len(ab), wantAB) || !unshard("repeated-later-collection", len(ab), wantAB) {
+			return
+		}
+	})
+	if panicked {
+		r.Violation(key("panic:"+verifmc.PanicClass(what)), caseID, fmt.Sprintf("%s history A=%v B=%v: panic: %s", tag(inst, shares), a, b, what), payload)
+		return
+	}
+	if fail != "" {
+		r.Violation(key(cls), caseID, fmt.Sprintf("%s: aggregate A=%v, collect twice, continue with B=%v, collect twice (marshal between: %v): %s",
+			tag(inst, shares), a, b, marshal, fail), payload)
+		return
+	}
+	r.Count("collection_histories_exact", 1)
+	r.Outcome("history-exact")
 }
 
 func (s *Sys[M, A, V, E]) checkOrder(t interface{ Fatalf(string, ...interface{}) }, inst prio.Inst) {
